@@ -15,14 +15,16 @@ import (
 
 const extUniverse = "  CU = 4\n  Files = {\"a\", \"b\", \"d/a\"}\n  Dirs = {\"d\"}\n  Links = {\"l\", \"d/l\"}\n  InD = {\"d/a\", \"d/l\"}\n"
 
-func extGenCfg(d int, neg, attr bool) []byte {
+func extGenCfg(d int, neg, attr bool) []byte { return extGenCfgT(d, neg, attr, false) }
+
+func extGenCfgT(d int, neg, attr, trunc bool) []byte {
 	b := func(x bool) string {
 		if x {
 			return "TRUE"
 		}
 		return "FALSE"
 	}
-	return []byte(fmt.Sprintf("SPECIFICATION Spec\nCONSTANTS\n%s  MaxLen = 9\n  D = %d\n  Neg = %s\n  WithAttr = %s\nINVARIANT Emit\nVIEW View\nCHECK_DEADLOCK FALSE\n", extUniverse, d, b(neg), b(attr)))
+	return []byte(fmt.Sprintf("SPECIFICATION Spec\nCONSTANTS\n%s  MaxLen = 9\n  D = %d\n  Neg = %s\n  WithAttr = %s\n  WithTrunc = %s\nINVARIANT Emit\nVIEW View\nCHECK_DEADLOCK FALSE\n", extUniverse, d, b(neg), b(attr), b(trunc)))
 }
 
 type extJob struct {
@@ -50,10 +52,20 @@ func extScripted() [][]extOp {
 	// a directory that grows across a block group boundary (twice: on the fresh volume and after some traffic)
 	cc := []extOp{{A: "Mkdir", P: "d"}, {A: "Straddle"}, {A: "Create", P: "a"}, {A: "Append", P: "a", Len: 5, Tag: 1}, {A: "Create", P: "d/a"}, {A: "Append", P: "d/a", Len: 9, Tag: 2},
 		{A: "Straddle"}, {A: "GroupEdge"}, {A: "Remove", P: "a"}, {A: "Churn", P: "d", K: 30}, {A: "Straddle"}, {A: "Remove", P: "d/a"}, {A: "Remove", P: "d"}, {A: "GroupEdge"}, {A: "BigFile", K: 20}}
-	return [][]extOp{a, b, cc}
+	// Truncate (ext4.FileSystem.Truncate): shrink, regrow by appending, to zero, extend past the end
+	dd := []extOp{{A: "Create", P: "a"}, {A: "Append", P: "a", Len: 9, Tag: 1}, {A: "Truncate", P: "a", Off: 5}, {A: "Append", P: "a", Len: 3, Tag: 2}, {A: "Truncate", P: "a", Off: 0},
+		{A: "Append", P: "a", Len: 5, Tag: 3}, {A: "Truncate", P: "a", Off: 12}, {A: "WriteAt", P: "a", Off: 7, Len: 3, Tag: 4}, {A: "Create", P: "b"}, {A: "Append", P: "b", Len: 4, Tag: 5},
+		{A: "Truncate", P: "a", Off: 1}, {A: "Append", P: "b", Len: 9, Tag: 6}, {A: "Remove", P: "a"}, {A: "BigFile", K: 30}, {A: "Remove", P: "b"}}
+	// a file whose extent tree gets index blocks and a second level; a volume filled until writes are refused
+	ee := []extOp{{A: "Create", P: "a"}, {A: "Append", P: "a", Len: 5, Tag: 1}, {A: "ManyExtents", K: 260}, {A: "Mkdir", P: "d"}, {A: "Create", P: "d/a"}, {A: "Append", P: "d/a", Len: 4, Tag: 2},
+		{A: "Full"}, {A: "Remove", P: "d/a"}, {A: "Append", P: "a", Len: 4, Tag: 3}, {A: "Remove", P: "d"}, {A: "Remove", P: "a"}}
+	return [][]extOp{a, b, cc, dd, ee}
 }
 
-func extGenerate(c *core.Ctx, depth int, attr bool, walks, walkDepth int) ([][]extOp, []string, bool) {
+// withTrunc: include ext4.FileSystem.Truncate (walks and a scripted behaviour).  Truncate is not among the
+// calls C04 lists (and what follows a Truncate is then outside C04's statement too), so only C05 - whose
+// statement covers every operation on the volume - asks for it.
+func extGenerate(c *core.Ctx, depth int, attr bool, walks, walkDepth int, withTrunc bool) ([][]extOp, []string, bool) {
 	var behs [][]extOp
 	var labels []string
 	gen, err := tlc.Run(tlc.Opts{Module: "ExtTree_Gen", Config: "gen.cfg", Workers: 1, Files: map[string][]byte{"gen.cfg": extGenCfg(depth, true, attr)}, Timeout: 20 * time.Minute})
@@ -73,7 +85,7 @@ func extGenerate(c *core.Ctx, depth int, attr bool, walks, walkDepth int) ([][]e
 	}
 	c.Extra["generated_bfs_behaviours"] = len(b)
 	sim, err := tlc.Run(tlc.Opts{Module: "ExtTree_Gen", Config: "gen.cfg", Workers: 1, Simulate: fmt.Sprintf("num=%d", walks), Depth: walkDepth + 2, Seed: c.Seed,
-		Files: map[string][]byte{"gen.cfg": extGenCfg(walkDepth, true, true)}, Timeout: 10 * time.Minute})
+		Files: map[string][]byte{"gen.cfg": extGenCfgT(walkDepth, true, true, withTrunc)}, Timeout: 10 * time.Minute})
 	if err != nil {
 		c.Broken("ExtTree_Gen simulate: %v", err)
 		return nil, nil, false
@@ -89,6 +101,15 @@ func extGenerate(c *core.Ctx, depth int, attr bool, walks, walkDepth int) ([][]e
 	}
 	c.Extra["generated_walks"] = len(w)
 	for _, x := range extScripted() {
+		hasTrunc := false
+		for _, o := range x {
+			if o.A == "Truncate" {
+				hasTrunc = true
+			}
+		}
+		if hasTrunc && !withTrunc {
+			continue
+		}
 		behs = append(behs, x)
 		labels = append(labels, "scripted")
 	}
@@ -227,7 +248,7 @@ func C04(c *core.Ctx) {
 	if c.Tier == "thorough" {
 		depth, walks, wd = 3, 200, 40
 	}
-	behs, labels, ok := extGenerate(c, depth, c.Tier != "thorough", walks, wd)
+	behs, labels, ok := extGenerate(c, depth, c.Tier != "thorough", walks, wd, false)
 	if !ok {
 		return
 	}
